@@ -134,6 +134,16 @@ class Desugar(ast.NodeTransformer):
 
     def visit_Compare(self, node):
         self.generic_visit(node)
+        # a < b <= c  ->  (a < b) and (b <= c)   when the shared operands are plain names / constants / attribute
+        # chains (evaluating them twice changes nothing)
+        if len(node.ops) > 1 and all(isinstance(c, (ast.Name, ast.Constant, ast.Attribute)) and not any(isinstance(x, ast.Call) for x in ast.walk(c)) for c in node.comparators[:-1]):
+            self.count += 1
+            parts = []
+            left = node.left
+            for op, c in zip(node.ops, node.comparators):
+                parts.append(ast.copy_location(ast.Compare(left=left, ops=[op], comparators=[c]), node))
+                left = copy.deepcopy(c)
+            return ast.fix_missing_locations(ast.copy_location(ast.BoolOp(op=ast.And(), values=parts), node))
         if len(node.ops) == 1 and isinstance(node.ops[0], (ast.In, ast.NotIn)) and _is_str(node.left) and _is_dunder_dict(node.comparators[0]):
             self.count += 1
             c = ast.Call(func=ast.Name(id="hasattr", ctx=ast.Load()), args=[node.comparators[0].value, node.left], keywords=[])
